@@ -21,8 +21,9 @@ CHECKS = {
          "The constructor's file loop is not yet under contract (bounded only). Paper lemma about LALR parsing is not machine-checked.",
          "lexical obligations; bounded: rewrite invariance", "5/C02"),
  "C03": ("other", "find_charge_conjugate_match (all 4 paths, loop invariant), ChargeConjugateReplacement.particle, get_charge_conjugate_defs/"
-         "decays and charge_conjugate_name's control flow are proved for all inputs; the orchestration (_add_charge_conjugate_decays, parse) "
-         "is bounded end-to-end.", "A-CC (name table properties) established exhaustively by C04; deepcopy/Visitor.visit assumed.",
+         "decays, charge_conjugate_name's control flow and _add_charge_conjugate_decays (stored tables untouched and in place, added tables "
+         "entirely new objects, nothing added without CDecay, no escaping exception) are proved for all inputs; which source table is conjugated "
+         "for which name, the content of the result and parse(include_ccdecays) are bounded end-to-end.", "A-CC (name table properties) established exhaustively by C04; deepcopy/Visitor.visit assumed.",
          "bounded: generated files incl. >3 tables, both switch values", "5/C03"),
  "C04": ("other", "charge_conjugate_name: control-flow contract proved; its table-level properties (PDG-ID negation, involution, marker) "
          "are evaluated on EVERY name of the installed tables (finite, exhaustive). Class-level conjugation and agreement with CDecay: bounded.",
@@ -40,11 +41,15 @@ CHECKS = {
          "sorted CDecay list as a permutation, last PHOTOS flag); the rest and the text->tree step are bounded against the reference reader.",
          "get_particle_property_definitions, get_pythia/jetset/lineshape getters: bounded only so far.", "bounded: parse vs reference reader", "5/C07"),
  "C08": ("other", "Bounded: copies/derived tables share no object with their source (white-box disjointness), exhaustive query/mutation/query pairs "
-         "and random histories compared with a fresh instance. Proof: queries under contract have empty frames and fresh results.",
-         "_add_decays_to_be_copied not yet under contract.", "frame obligations; bounded: histories", "5/C08"),
- "C09": ("other", "_find_decay_modes (first table, DecayNotFound iff none) and _decay_mode_details are proved; the recursion of "
-         "build_decay_chains is bounded (exhaustive small scopes, all stable subsets).", "build_decay_chains itself not yet under contract.",
-         "bounded: exhaustive table sets", "5/C09"),
+         "and random histories compared with a fresh instance. Proof: _add_decays_to_be_copied and _add_charge_conjugate_decays (added tables are "
+         "fresh deep copies sharing no mutable node with what existed; old tables untouched), build_decay_chains and the queries under contract "
+         "have empty frames and fresh results.",
+         "_expand_decay_modes, print_decay_modes, parse: bounded only.", "frame obligations; bounded: histories", "5/C08"),
+ "C09": ("proof", "Every clause is a discharged obligation (partial correctness): build_decay_chains is proved against the property statement (one unfolding level per call; deeper levels are the recursive results, "
+         "identified by ghost attributes its own contract writes on return), with _find_decay_modes (first table, DecayNotFound iff none) and "
+         "_decay_mode_details; exhaustive small table sets with all stable subsets run in addition (bounded).",
+         "Termination of the recursion (acyclic tables) is not proved; ghost attributes are specification-only state.",
+         "contracts + VC generation; bounded: exhaustive table sets", "5/C09"),
  "C10": ("other", "format_descriptor is proved; _expand_decay_modes (recursive in-place expansion) is bounded: exhaustive small table sets, path count "
          "= sum of products, descriptors as multisets.", "str.format trusted.", "bounded: exhaustive table sets", "5/C10"),
  "C11": ("other", "Bounded: exhaustive chain shapes (incl. repeated decaying particles), mode/chain/parser round trips, all 806 PDG IDs.",
